@@ -352,18 +352,21 @@ pub fn c25_case(src: &mut Src, obs: &mut Obs) -> CaseResult {
     let _ = sched.run(&mut || sch.next(), 50_000, &mut |_| false);
     // one manager at /m (main campaign); a second one in a disjoint subtree sometimes
     let second = src.chance(80);
+    // ... or one below the first (the inner manager's objects are below the outer one as well)
+    let nested = src.chance(70);
+    let m2 = if nested { 1 } else { 4 };
     let n = 2 + src.below(16);
     let mut ops: Vec<MOp> = vec![MOp::AddManager(0)];
-    if second {
-        ops.push(MOp::AddManager(4));
+    if second || nested {
+        ops.push(MOp::AddManager(m2));
     }
     let pre = src.below(3);
     for k in 0..n {
         ops.insert(if k < pre { 0 } else { ops.len() }, match src.weighted(&[8, 5, 1, 1]) {
             0 => MOp::At(src.below(MPATHS.len()), src.below(3)),
             1 => MOp::Remove(src.below(MPATHS.len()), src.below(3)),
-            2 => MOp::AddManager(if second && src.bool() { 4 } else { 0 }),
-            _ => MOp::RemoveManager(if second && src.bool() { 4 } else { 0 }),
+            2 => MOp::AddManager(if (second || nested) && src.bool() { m2 } else { 0 }),
+            _ => MOp::RemoveManager(if (second || nested) && src.bool() { m2 } else { 0 }),
         });
     }
     // model: registered (path, iface) -> value; managers
@@ -491,6 +494,37 @@ pub fn c25_case(src: &mut Src, obs: &mut Obs) -> CaseResult {
         if !views.is_empty() && matches!(op, MOp::At(..) | MOp::Remove(..)) {
             after_snapshot_ops += 1;
         }
+        // with one manager below the other, what a manager lists is whatever it says it lists: the
+        // folded view is compared with a fresh listing
+        if nested {
+            let strip = |v: &View| -> View { v.iter().filter(|(_, i)| !i.is_empty()).map(|(k, v)| (k.clone(), v.clone())).collect() };
+            for (mp, view) in &views {
+                let call = peer.call(MPATHS[*mp], Some("org.freedesktop.DBus.ObjectManager"), "GetManagedObjects", vec![]);
+                peer.send(&call);
+                let base = peer.out.len();
+                let oc = sched.run(&mut || sch.next(), 300_000, &mut |_| {
+                    peer.pump();
+                    peer.out[base..].iter().any(|m| m.get(msg::F_REPLY_SERIAL) == Some(&RVal::U(call.serial)))
+                });
+                if oc != Outcome::Goal {
+                    return Err(Failure::new(format!("GetManagedObjects on {} is not answered; history {history:?}", MPATHS[*mp])));
+                }
+                let reply = peer.out[base..].iter().find(|m| m.get(msg::F_REPLY_SERIAL) == Some(&RVal::U(call.serial))).unwrap().clone();
+                let mut listing = View::new();
+                if let Some(RVal::Dict(_, _, entries)) = reply.body.first() {
+                    for (k, ifs) in entries {
+                        if let RVal::O(path) = k {
+                            listing.insert(path.clone(), ifaces_from(ifs));
+                        }
+                    }
+                }
+                if strip(view) != strip(&listing) {
+                    return Err(Failure::keyed("objmgr-nested-managers-diverge", format!("client of the manager at {} (another manager at {}) folded {:?} from the listing it started with and the signals since, but the manager now lists {:?}; history {history:?}", MPATHS[*mp], MPATHS[m2], strip(view), strip(&listing))));
+                }
+            }
+            consumed = peer.out.len();
+            continue;
+        }
         // every client's folded view == the model's listing under that manager
         for (mp, view) in &views {
             let mut want = View::new();
@@ -508,7 +542,7 @@ pub fn c25_case(src: &mut Src, obs: &mut Obs) -> CaseResult {
             }
         }
     }
-    obs.label(if second { "two-managers" } else { "one-manager" });
+    obs.label(if nested { "two-managers-nested" } else if second { "two-managers" } else { "one-manager" });
     if after_snapshot_ops > 0 {
         obs.nontrivial(fnv(format!("{ops:?}").as_bytes()));
         obs.sample(if second { "two" } else { "one" }, || format!("{ops:?}"));
